@@ -453,7 +453,15 @@ func refField(f fieldT, view map[string]any, stats map[string]int64) fieldRef {
 	return fieldRef{judged: true, filterRef: filterRef{kind: filterKind(f.Filter)}, class: "unsatisfied"}
 }
 
-func sameJSON(a, b any) bool { return reflect.DeepEqual(toAny(a), toAny(b)) }
+// sameJSON compares two reported / expected values; strings byte by byte (a JSON round trip would repair invalid UTF-8).
+func sameJSON(a, b any) bool {
+	sa, aStr := a.(string)
+	sb, bStr := b.(string)
+	if aStr || bStr {
+		return aStr && bStr && sa == sb
+	}
+	return reflect.DeepEqual(toAny(a), toAny(b))
+}
 
 func inSet(set []any, v any) bool {
 	for _, s := range set {
@@ -513,11 +521,11 @@ func patternShapes() []namedFilter {
 	shapes := [][2]string{
 		{"0g/unanchored", `alp[^-]*-1`}, {"0g/anchored", `^.*alp[^-]*-1.*$`}, {"0g/non-capturing", `(?:alp|bet)[^-]*-1`}, {"0g/alternatives", `bet[^-]*-1|alp[^-]*-1`},
 		{"0g/lookahead", `alp[^-]*(?=-1)`}, {"0g/lookbehind", `(?<=-)1`}, {"0g/negative-lookahead", `alp(?!x)[^-]*`}, {"0g/class-escapes", `\w+-\d`}, {"0g/word-boundary", `\balp[^-]*`},
-		{"0g/empty-match", `z*`}, {"0g/suffix", `-1.*$`}, {"0g/prefix", `^.*?alp`}, {"0g/one-rune", `alp.`}, {"0g/unicode-escape", `\u00e9|\u6f22|alp`}, {"0g/astral-literal", `😀|a-1`},
+		{"0g/empty-match", `z*`}, {"0g/suffix", `-1.*$`}, {"0g/prefix", `^.*?alp`}, {"0g/one-rune", `alp.`}, {"0g/unicode-escape", `\u00e9|\u6f22|alp`}, {"0g/hex-escape", `\xe9|alp`}, {"0g/astral-literal", `😀|a-1`},
 		{"1g/unanchored", `(alp[^-]*)-1`}, {"1g/anchored", `^.*?(alp[^-]*-1).*$`}, {"1g/after-core", `alp[^-]*-(1)`}, {"1g/suffix", `-1(.*)$`}, {"1g/prefix", `^(.*?)alp`},
 		{"1g/with-non-capturing", `(?:alp|bet)([^-]*)-1`}, {"1g/alternatives", `(bet[^-]*|alp[^-]*)-1`}, {"1g/lookahead", `(alp[^-]*)(?=-1)`}, {"1g/named", `(?<core>alp[^-]*)-1`},
 		{"1g/empty-capture", `alp()`}, {"1g/optional-absent", `alp[^-]*-1(zzz)?`}, {"1g/branch-absent", `zzz(q)|alp[^-]*-1`}, {"1g/repeated", `(?:([^ -])+)-1`}, {"1g/whole", `^(.*)$`},
-		{"1g/one-rune", `alp(.)`}, {"1g/unicode-escape", `(\u00e9|\u6f22|p)`}, {"1g/astral-literal", `(😀|a-)`}, {"1g/last-rune", `(.)$`},
+		{"1g/one-rune", `alp(.)`}, {"1g/unicode-escape", `(\u00e9|\u6f22|p)`}, {"1g/hex-escape", `(\xe9|p)`}, {"1g/astral-literal", `(😀|a-)`}, {"1g/last-rune", `(.)$`},
 		{"2g/adjacent", `(alp)([^-]*)-1`}, {"2g/nested", `((alp)[^-]*)-1`}, {"2g/one-absent", `(alp)|(bet)`},
 		{"no-match", `^zzz$`}, {"invalid", `alp(`},
 	}
@@ -698,7 +706,9 @@ func valueCases(thorough bool, visit func(idx int, mk func() valueCase)) int {
 					for _, order := range []string{"AB", "BA"} {
 						nf, sameID, fa, fb, order := nf, sameID, fa, fb, order
 						emit(func() valueCase {
-							both := func(tail string) []string { return []string{"$.credentialSubject" + tail, "$.credentialSubject[0]" + tail} }
+							both := func(tail string) []string {
+								return []string{"$.credentialSubject" + tail, "$.credentialSubject[0]" + tail}
+							}
 							mk := func(id, k, fid string) descriptorT {
 								d := descriptorT{ID: id}
 								d.Constraints.Fields = []fieldT{{Path: both(".k"), Filter: &filterT{Type: "string", Const: sp(k)}}, {ID: sp(fid), Path: both(".x"), Filter: nf.f}}
@@ -753,7 +763,7 @@ func TestVerifC12Values(t *testing.T) {
 	logrus.SetOutput(io.Discard)
 	r := ev.Start(t, "C12")
 	defer r.Finish()
-	r.Rule("cases = (a) one named field on credentialSubject.x: VALUE {prefix {none, ascii, 2-byte, 3-byte, 4-byte, combining mark, regexp metacharacters} x core {ascii, 2-byte, 3-byte, 4-byte, combining, metacharacters} x suffix {none, ascii, 2/3/4-byte, combining}; empty, blank, 16k-rune multi-byte and 20k ascii strings, digit / 'true' strings, only multi-byte, two cores, LF / CRLF / U+2028 / TAB+NUL inside, U+FFFD, BOM+NBSP, RTL+ZWJ sequences; numbers (int, fraction, 0, negative, 1e21), booleans, null, arrays (empty, strings, one, mixed, numbers, nested), object} x FILTER {38 pattern shapes: 0 groups (unanchored, anchored, non-capturing, alternatives, look-ahead, look-behind, negative look-ahead, class escapes, word boundary, empty match, suffix, prefix, one rune, \\u escape, astral literal), 1 group (unanchored, anchored, after / before / inside the multi-byte part, with non-capturing group, alternatives, look-ahead, named, empty capture, optional group absent, branch absent, repeated, whole, one rune, last rune), 2 groups (adjacent, nested, one absent), no match, invalid; none; type-only x4; const (own value, own value + combining mark, core, number-as-string), enum (own value last, cores)} x {ldp_vc, jwt_vc}; (b) PATHS: 16 ordered path lists over array elements [n], out-of-range, [*], empty [*], missing-then-present, fails-then-matches x 10 filters x optional x format; (c) FIELDS: pairs and triples from 9 fields (one id used twice, optional absent fields with and without filter, anonymous fields) x format; (d) TWO descriptors selecting different credentials with the same / different field id x 4 filters x formats x wallet order; (e) SUBJECTS: credentialSubject with two subjects x 11 path lists x 6 filters x optional x format. Every case runs Match + ResolveConstraintsFields (wallet side) and Build + presentation as ldp_vp and jwt_vp + ParseEnvelope + ParsePresentationSubmission + Validate + ResolveConstraintsFields (verifier side). A case is distinct by its name (value class, filter shape, format / path list / field list)")
+	r.Rule("cases = (a) one named field on credentialSubject.x: VALUE {prefix {none, ascii, 2-byte, 3-byte, 4-byte, combining mark, regexp metacharacters} x core {ascii, 2-byte, 3-byte, 4-byte, combining, metacharacters} x suffix {none, ascii, 2/3/4-byte, combining}; empty, blank, 16k-rune multi-byte and 20k ascii strings, digit / 'true' strings, only multi-byte, two cores, LF / CRLF / U+2028 / TAB+NUL inside, U+FFFD, BOM+NBSP, RTL+ZWJ sequences; numbers (int, fraction, 0, negative, 1e21), booleans, null, arrays (empty, strings, one, mixed, numbers, nested), object} x FILTER {" + strconv.Itoa(len(patternShapes())) + " pattern shapes: 0 groups (unanchored, anchored, non-capturing, alternatives, look-ahead, look-behind, negative look-ahead, class escapes, word boundary, empty match, suffix, prefix, one rune, \\u and \\x escapes, astral literal), 1 group (unanchored, anchored, after / before / inside the multi-byte part, with non-capturing group, alternatives, look-ahead, named, empty capture, optional group absent, branch absent, repeated, whole, one rune, last rune), 2 groups (adjacent, nested, one absent), no match, invalid; none; type-only x4; const (own value, own value + combining mark, core, number-as-string), enum (own value last, cores)} x {ldp_vc, jwt_vc}; (b) PATHS: 16 ordered path lists over array elements [n], out-of-range, [*], empty [*], missing-then-present, fails-then-matches x 10 filters x optional x format; (c) FIELDS: pairs and triples from 9 fields (one id used twice, optional absent fields with and without filter, anonymous fields) x format; (d) TWO descriptors selecting different credentials with the same / different field id x 4 filters x formats x wallet order; (e) SUBJECTS: credentialSubject with two subjects x 11 path lists x 6 filters x optional x format. Every case runs Match + ResolveConstraintsFields (wallet side) and Build + presentation as ldp_vp and jwt_vp + ParseEnvelope + ParsePresentationSubmission + Validate + ResolveConstraintsFields (verifier side). Definitions the schema refuses (look-around, \\u escapes, invalid pattern) are run the way a remote definition reaches the wallet (json.Unmarshal) and can only yield observations. A case is distinct by its name (value class, filter shape, format / path list / field list)")
 	r.Assume("reference: JSON value at the first path (in list order) whose value is there and satisfies the filter; pattern = ECMA-262 semantics, first match, whole match without group / the single capture group ('' when it does not participate) cut out by rune offsets by the reference itself, and equal to Go's regexp answer where that package accepts the pattern (else unjudged); the value itself is always an acceptable report (statement: 'the value actually present ... or its single capture'); arrays: the array, a satisfying element or its capture")
 
 	var rc valueReplay
@@ -812,10 +822,27 @@ func TestVerifC12Values(t *testing.T) {
 			}
 			pdCache[string(defJSON)] = pd
 		}
+		// The statement quantifies over definitions the schema accepts. A definition the schema refuses (its pattern validator
+		// speaks RE2: no look-around, no \u escapes) still reaches the wallet the way a REMOTE definition does (plain
+		// json.Unmarshal in the IAM client); it is run too, but whatever it shows is an observation, never a violation.
+		outside := false
 		if pd == nil {
 			stats["definitions_schema_invalid"]++
-			r.Outcome("definition:schema-invalid " + vcase.shape)
-			return
+			var plain pe.PresentationDefinition
+			if err := json.Unmarshal(defJSON, &plain); err != nil {
+				r.Outcome("definition:not-parsed " + vcase.shape)
+				return
+			}
+			r.Outcome("definition:schema-invalid-run-as-remote-definition " + vcase.shape)
+			pd, outside = &plain, true
+		}
+		violation := func(sig, what string, rp valueReplay) {
+			if outside {
+				stats["deviations_outside_the_statement"]++
+				r.Observation("on a definition the schema refuses (outside the statement's quantifier; reaches the wallet as a remote definition): "+sig, rp)
+				return
+			}
+			r.Violation(sig, what, rp)
 		}
 
 		// judge compares one reported values map with the reference, field id by field id.
@@ -835,7 +862,7 @@ func TestVerifC12Values(t *testing.T) {
 					ref := refField(f, c.view, stats)
 					if ref.judged && !ref.satisfied {
 						stats["selected_but_unsatisfied"]++
-						r.Violation("C12|values|selected-credential-does-not-satisfy-descriptor|"+ref.kind, fmt.Sprintf("%s side: credential %s is mapped to descriptor %s although it does not satisfy the field with path %v (%s)", side, c.name, d.ID, f.Path, ref.kind), mkReplay(side, "", ""))
+						violation("C12|values|selected-credential-does-not-satisfy-descriptor|"+ref.kind, fmt.Sprintf("%s side: credential %s is mapped to descriptor %s although it does not satisfy the field with path %v (%s)", side, c.name, d.ID, f.Path, ref.kind), mkReplay(side, "", ""))
 					}
 					if f.ID == nil {
 						continue
@@ -885,7 +912,7 @@ func TestVerifC12Values(t *testing.T) {
 						r.Observation("a named field that the mapped credential satisfies has no (or a null) reported value (the statement speaks of the values that ARE extracted; not judged)", mkReplay(side, id, ""))
 					}
 				case allAbsent:
-					r.Violation("C12|values|value-reported-for-absent-field|"+kind, fmt.Sprintf("%s side: field %s is optional and absent from the mapped credential, yet the value %s is reported", side, id, short(got)), mkReplay(side, id, short(got)))
+					violation("C12|values|value-reported-for-absent-field|"+kind, fmt.Sprintf("%s side: field %s is optional and absent from the mapped credential, yet the value %s is reported", side, id, short(got)), mkReplay(side, id, short(got)))
 				case inSet(acc, got):
 					single := len(byField[id]) == 1 && byField[id][0].ref.hasRule
 					if single && sameJSON(byField[id][0].ref.strict, got) {
@@ -919,7 +946,7 @@ func TestVerifC12Values(t *testing.T) {
 						want = append(want, short(a))
 					}
 					stats["value_violations"]++
-					r.Violation("C12|values|value-differs-from-credential|"+kind+"|"+class, fmt.Sprintf("%s side, %s: field %s is reported as %s; the mapped credential holds / the documented capture is one of %v", side, vcase.name, id, short(got), want), mkReplay(side, id, "reported "+short(got)))
+					violation("C12|values|value-differs-from-credential|"+kind+"|"+class, fmt.Sprintf("%s side, %s: field %s is reported as %s; the mapped credential holds / the documented capture is one of %v", side, vcase.name, id, short(got), want), mkReplay(side, id, "reported "+short(got)))
 				}
 			}
 		}
@@ -940,7 +967,7 @@ func TestVerifC12Values(t *testing.T) {
 		})
 		if panicked {
 			site := strings.Fields(out)[1]
-			r.Violation("C12|values|match-panic|"+strings.TrimSuffix(site, ":"), "Match panics: "+out, mkReplay("wallet", "", out))
+			violation("C12|values|match-panic|"+strings.TrimSuffix(site, ":"), "Match panics: "+out, mkReplay("wallet", "", out))
 			return
 		}
 		r.Outcome(family + "/match:" + out)
@@ -960,7 +987,7 @@ func TestVerifC12Values(t *testing.T) {
 			return
 		}
 		if len(mappings) != len(selected) {
-			r.Violation("C12|values|mapping-count", fmt.Sprintf("%d mappings for %d selected credentials", len(mappings), len(selected)), mkReplay("wallet", "", ""))
+			violation("C12|values|mapping-count", fmt.Sprintf("%d mappings for %d selected credentials", len(mappings), len(selected)), mkReplay("wallet", "", ""))
 			return
 		}
 		stats["pairs_matched"]++
@@ -975,14 +1002,16 @@ func TestVerifC12Values(t *testing.T) {
 			}
 		}
 		if len(mapped) != len(mappings) {
-			r.Violation("C12|values|unknown-credential-selected", "Match selects a credential that is not in the wallet", mkReplay("wallet", "", ""))
+			violation("C12|values|unknown-credential-selected", "Match selects a credential that is not in the wallet", mkReplay("wallet", "", ""))
 			return
 		}
 		var walletValues map[string]any
 		var rerr error
 		if o, p := guard("ResolveConstraintsFields", func() string { walletValues, rerr = pd.ResolveConstraintsFields(credMap); return "done" }); p {
-			r.Violation("C12|values|resolve-fields-panic", "ResolveConstraintsFields panics: "+o, mkReplay("wallet", "", o))
+			violation("C12|values|resolve-fields-panic", "ResolveConstraintsFields panics: "+o, mkReplay("wallet", "", o))
 			return
+		} else if o == "TIMEOUT" {
+			return // recorded as not exhaustive; never an alarm
 		}
 		if rerr != nil {
 			r.Outcome("wallet-resolve:error")
@@ -1001,11 +1030,13 @@ func TestVerifC12Values(t *testing.T) {
 			sub, sign, berr = b.Build("ldp_vp")
 			return "done"
 		}); p {
-			r.Violation("C12|values|build-panic", "Build panics: "+o, mkReplay("wallet", "", o))
+			violation("C12|values|build-panic", "Build panics: "+o, mkReplay("wallet", "", o))
+			return
+		} else if o == "TIMEOUT" {
 			return
 		}
 		if berr != nil {
-			r.Violation("C12|values|build-fails-after-match", "Match selects credentials but Build fails: "+berr.Error(), mkReplay("wallet", "", ""))
+			violation("C12|values|build-fails-after-match", "Match selects credentials but Build fails: "+berr.Error(), mkReplay("wallet", "", ""))
 			return
 		}
 		subRaw, _ := json.Marshal(sub)
@@ -1033,7 +1064,10 @@ func TestVerifC12Values(t *testing.T) {
 				return "accepted"
 			})
 			if p {
-				r.Violation("C12|values|validate-panic", "the verifier panics on the wallet's own submission: "+o, mkReplay(side, "", o))
+				violation("C12|values|validate-panic", "the verifier panics on the wallet's own submission: "+o, mkReplay(side, "", o))
+				continue
+			}
+			if o == "TIMEOUT" {
 				continue
 			}
 			verdict := strings.TrimSuffix(strings.Fields(o)[0], ":")
@@ -1058,7 +1092,7 @@ func TestVerifC12Values(t *testing.T) {
 						}
 					}
 				}
-				r.Violation("C12|validate|wallet-submission-rejected|"+cause, fmt.Sprintf("the submission built for the wallet's selection is %s by the verifier's validation of the same definition (%s, %s)", o, vcase.name, vf), mkReplay(side, "", o))
+				violation("C12|validate|wallet-submission-rejected|"+cause, fmt.Sprintf("the submission built for the wallet's selection is %s by the verifier's validation of the same definition (%s, %s)", o, vcase.name, vf), mkReplay(side, "", o))
 				continue
 			}
 			vmapped := map[string]vcred{}
@@ -1070,13 +1104,15 @@ func TestVerifC12Values(t *testing.T) {
 				}
 			}
 			if len(vmapped) != len(got) {
-				r.Violation("C12|values|verifier-returns-unknown-credential", "Validate returns a credential that was not presented", mkReplay(side, "", ""))
+				violation("C12|values|verifier-returns-unknown-credential", "Validate returns a credential that was not presented", mkReplay(side, "", ""))
 				continue
 			}
 			var vvalues map[string]any
 			var verr error
 			if o, p := guard("ResolveConstraintsFields(verifier)", func() string { vvalues, verr = pd.ResolveConstraintsFields(got); return "done" }); p {
-				r.Violation("C12|values|resolve-fields-panic", "ResolveConstraintsFields panics: "+o, mkReplay(side, "", o))
+				violation("C12|values|resolve-fields-panic", "ResolveConstraintsFields panics: "+o, mkReplay(side, "", o))
+				continue
+			} else if o == "TIMEOUT" {
 				continue
 			}
 			if verr != nil {
